@@ -10,6 +10,85 @@ use serde_json::{json, Value};
 
 pub struct C03;
 
+/// oracle of the small-scope search: Ok(non-trivial?) or the discrepancy
+fn small_oracle(docs: &[&crate::model::Node], bytes: &[Vec<u8>]) -> Result<bool, String> {
+    let occs: Vec<&crate::model::Node> = docs.to_vec();
+    let schema = crate::refinf::infer("r", &occs);
+    let root = crate::sut::parse_seq(bytes).map_err(|(i, e)| format!("document #{} rejected: {}", i + 1, e))?;
+    let src = root.to_serde_struct(&Options::quick_xml_de());
+    let defs = crate::rendered::read_lines(&src).map_err(|e| format!("output unreadable: {}\n{}", e, src))?;
+    let tree = crate::rendered::build_tree(&defs, "@", "$text").map_err(|e| format!("not a tree: {}\n{}", e, src))?;
+    compare_schema(&schema, &tree, "").map_err(|e| format!("rendered schema differs from the reference inference: {}\n{}", e, src))?;
+    if defs.len() != schema.count_struct_positions().max(1) {
+        return Err(format!("{} struct items rendered, {} non-String positions\n{}", defs.len(), schema.count_struct_positions().max(1), src));
+    }
+    compare_element(&schema, &root, "").map_err(|e| format!("returned Element tree differs from the reference inference: {}", e))?;
+    fn decided(s: &crate::refinf::Schema) -> bool {
+        s.attrs.iter().any(|a| a.optional) || s.children.iter().any(|c| c.optional || c.multiple || decided(&c.schema))
+    }
+    Ok(decided(&schema))
+}
+
+/// replay of a small-scope counterexample given as canonical documents
+fn replay_small(bytes: &[Vec<u8>]) -> Result<(), String> {
+    // rebuild the DOM from the canonical text with an independent mini parser (names r/a/b, attribute k, text x)
+    fn parse(s: &[u8], i: &mut usize) -> Option<crate::model::Node> {
+        if s.get(*i) != Some(&b'<') {
+            return None;
+        }
+        *i += 1;
+        let st = *i;
+        while *i < s.len() && (s[*i] as char).is_ascii_alphanumeric() {
+            *i += 1;
+        }
+        let name = String::from_utf8_lossy(&s[st..*i]).to_string();
+        let mut attrs = vec![];
+        while s.get(*i) == Some(&b' ') {
+            *i += 1;
+            let a = *i;
+            while s[*i] != b'=' {
+                *i += 1;
+            }
+            attrs.push(String::from_utf8_lossy(&s[a..*i]).to_string());
+            *i += 2;
+            while s[*i] != b'"' {
+                *i += 1;
+            }
+            *i += 1;
+        }
+        let mut items = vec![];
+        if s.get(*i) == Some(&b'/') {
+            *i += 2;
+            return Some(crate::model::Node { name, attrs, items });
+        }
+        *i += 1;
+        loop {
+            if s.get(*i) == Some(&b'<') && s.get(*i + 1) == Some(&b'/') {
+                while s[*i] != b'>' {
+                    *i += 1;
+                }
+                *i += 1;
+                break;
+            }
+            if s.get(*i) == Some(&b'<') {
+                items.push(crate::model::Item::Child(parse(s, i)?));
+            } else if *i < s.len() {
+                items.push(crate::model::Item::Chars { blank: s[*i] == b' ' });
+                *i += 1;
+            } else {
+                return None;
+            }
+        }
+        Some(crate::model::Node { name, attrs, items })
+    }
+    let docs: Vec<crate::model::Node> = bytes.iter().filter_map(|b| parse(b, &mut 0)).collect();
+    if docs.len() != bytes.len() || docs.is_empty() {
+        return Err("cannot rebuild the documents of the replay file".into());
+    }
+    let refs: Vec<&crate::model::Node> = docs.iter().collect();
+    small_oracle(&refs, bytes).map(|_| ())
+}
+
 impl Property for C03 {
     fn id(&self) -> &'static str {
         "C03"
@@ -45,6 +124,21 @@ impl Property for C03 {
         Ok(())
     }
     fn extra(&self, tier: Tier, seed: u64, st: &mut Stats) -> Result<(), (Failure, Value)> {
+        // small-scope exhaustive part
+        let scopes: &[(usize, usize)] = match tier {
+            Tier::Quick => &[(3, 2), (2, 3)],
+            Tier::Thorough => &[(4, 2), (3, 3), (2, 4)],
+        };
+        for (max_nodes, arity) in scopes {
+            let (evals, nts, fail) = super::smallscope::run_tuples(*max_nodes, *arity, small_oracle);
+            st.evaluations += evals;
+            st.nontrivial_enumerated += nts;
+            st.add(&format!("exhaustive.nodes<={}.sequences_of_{}", max_nodes, arity), evals);
+            st.add("exhaustive.nontrivial", nts);
+            if let Some((e, docs)) = fail {
+                return Err((Failure::new(format!("small-scope exhaustive search: {}", e)).with_detail(json!({"documents": docs})), json!({"small_scope_documents": docs})));
+            }
+        }
         if tier == Tier::Thorough {
             let runs = std::env::var("XSGV_FUZZ_RUNS").ok().and_then(|s| s.parse().ok()).unwrap_or(125_000u64);
             let seeds: Vec<Vec<u8>> = crate::runner::gen_tapes(self, seed ^ 0x7a9e, 200)
@@ -63,6 +157,10 @@ impl Property for C03 {
         Ok(())
     }
     fn replay_custom(&self, payload: &Value) -> Result<(), Failure> {
+        if let Some(docs) = payload["small_scope_documents"].as_array() {
+            let bytes: Vec<Vec<u8>> = docs.iter().map(|d| d.as_str().unwrap_or("").as_bytes().to_vec()).collect();
+            return replay_small(&bytes).map_err(Failure::new);
+        }
         match crate::fuzzrun::replay(payload) {
             // the tape target runs the oracles of several properties; only this property's verdict counts here
             Some(Err(f)) if f.msg.starts_with("C03:") => Err(f),
@@ -70,7 +168,7 @@ impl Property for C03 {
         }
     }
     fn rule(&self) -> String {
-        "tape-decoded sequences of 1..5 well-formed documents over small per-case name pools (all name classes, 1 in 8 wide), full surface variation; compared with an independent reference inference over the generator's DOM at two observation points (rendered structs, returned Element tree). Non-trivial = the reference schema holds at least one Optional or Vec decision and some position has two or more occurrences; distinct by hash of the structural documents.".into()
+        "small-scope exhaustive: every ordered pair of documents over {root r, child names a,b, attribute k, optional text} with <= 3 elements (quick; 300k pairs) or <= 4 elements (thorough; 76M pairs) and depth <= 3, plus all triples over <= 2 (quick) / <= 3 (thorough) elements and all 4-tuples over <= 2 elements (thorough); sampled: tape-decoded sequences of 1..5 well-formed documents over small per-case name pools (all name classes, 1 in 8 wide), full surface variation; compared with an independent reference inference over the generator's DOM at two observation points (rendered structs, returned Element tree). Non-trivial = the reference schema holds at least one Optional or Vec decision and some position has two or more occurrences; distinct by hash of the structural documents.".into()
     }
     fn assumptions(&self) -> Vec<String> {
         vec![
@@ -81,6 +179,9 @@ impl Property for C03 {
     }
     fn describe(&self, tapes: &Tapes) -> Value {
         describe_case(&prepare(tapes, &Domain::general(), &SurfaceCfg::full()))
+    }
+    fn exhaustive(&self) -> bool {
+        true
     }
     fn health(&self, _tier: Tier) -> Vec<(&'static str, u64)> {
         vec![("nontrivial", 5000), ("optional_child_reseen", 500), ("vec_only_in_later_document", 500), ("k>=3", 1000), ("repetition_at_depth_3+", 500), ("empty_cdata_only_text_position", 50), ("blank_only_text_position", 200), ("wide_mode", 500)]
